@@ -1,0 +1,126 @@
+//go:build verif
+
+package controller
+
+import (
+	"time"
+
+	"github.com/pkg/errors"
+	v1 "k8s.io/api/core/v1"
+	"k8s.io/apimachinery/pkg/api/resource"
+	v1lister "k8s.io/client-go/listers/core/v1"
+)
+
+// VerifNewController wires a Controller exactly like NewController does, except that the
+// informer-backed pod and node listers of NewClient are replaced by the given backing listers.
+// The per-group filtered listers, the cloud provider lookup, min/max auto-discovery and the
+// per-group state are built with the same code NewClient / NewController use.
+func VerifNewController(opts Opts, allPodLister v1lister.PodLister, allNodeLister v1lister.NodeLister) (*Controller, error) {
+	listers := make(map[string]*NodeGroupLister)
+	for _, ng := range opts.NodeGroups {
+		if ng.Name == DefaultNodeGroup {
+			listers[ng.Name] = NewDefaultNodeGroupLister(allPodLister, allNodeLister, ng)
+		} else {
+			listers[ng.Name] = NewNodeGroupLister(allPodLister, allNodeLister, ng)
+		}
+	}
+	client := &Client{
+		Interface:     opts.K8SClient,
+		Listers:       listers,
+		allPodLister:  allPodLister,
+		allNodeLister: allNodeLister,
+	}
+
+	cloud, err := opts.CloudProviderBuilder.Build()
+	if err != nil {
+		return nil, errors.Wrap(err, "failed to create cloudprovider")
+	}
+
+	nodegroupMap := make(map[string]*NodeGroupState)
+	for _, nodeGroupOpts := range opts.NodeGroups {
+		cloudProviderNodeGroup, ok := cloud.GetNodeGroup(nodeGroupOpts.CloudProviderGroupName)
+		if !ok {
+			return nil, errors.Errorf("could not find node group \"%v\" on cloud provider", nodeGroupOpts.CloudProviderGroupName)
+		}
+		if nodeGroupOpts.autoDiscoverMinMaxNodeOptions() {
+			nodeGroupOpts.MinNodes = int(cloudProviderNodeGroup.MinSize())
+			nodeGroupOpts.MaxNodes = int(cloudProviderNodeGroup.MaxSize())
+		}
+		nodegroupMap[nodeGroupOpts.Name] = &NodeGroupState{
+			Opts:            nodeGroupOpts,
+			NodeGroupLister: client.Listers[nodeGroupOpts.Name],
+			scaleUpLock: scaleLock{
+				minimumLockDuration: nodeGroupOpts.ScaleUpCoolDownPeriodDuration(),
+				nodegroup:           nodeGroupOpts.Name,
+			},
+			scaleDelta: 0,
+		}
+	}
+
+	return &Controller{
+		Client:        client,
+		Opts:          opts,
+		stopChan:      make(chan struct{}),
+		cloudProvider: cloud,
+		nodeGroups:    nodegroupMap,
+	}, nil
+}
+
+// VerifGroupState is a read-only copy of the private per-group controller state.
+type VerifGroupState struct {
+	Name              string
+	IsLocked          bool
+	RequestedNodes    int
+	LockTime          time.Time
+	LockDuration      time.Duration
+	ScaleDelta        int
+	LastScaleOut      time.Time
+	CPUCapacityMilli  int64
+	MemCapacityBytes  int64
+	TaintTracker      []string
+	ForceTaintTracker []string
+	MinNodes          int
+	MaxNodes          int
+}
+
+// VerifDumpState returns the private per-group state in the order of Opts.NodeGroups.
+func (c *Controller) VerifDumpState() []VerifGroupState {
+	out := make([]VerifGroupState, 0, len(c.Opts.NodeGroups))
+	for _, ng := range c.Opts.NodeGroups {
+		s, ok := c.nodeGroups[ng.Name]
+		if !ok {
+			continue
+		}
+		out = append(out, VerifGroupState{
+			Name:              ng.Name,
+			IsLocked:          s.scaleUpLock.isLocked,
+			RequestedNodes:    s.scaleUpLock.requestedNodes,
+			LockTime:          s.scaleUpLock.lockTime,
+			LockDuration:      s.scaleUpLock.minimumLockDuration,
+			ScaleDelta:        s.scaleDelta,
+			LastScaleOut:      s.lastScaleOut,
+			CPUCapacityMilli:  s.cpuCapacity.MilliValue(),
+			MemCapacityBytes:  s.memCapacity.Value(),
+			TaintTracker:      append([]string(nil), s.taintTracker...),
+			ForceTaintTracker: append([]string(nil), s.forceTaintTracker...),
+			MinNodes:          s.Opts.MinNodes,
+			MaxNodes:          s.Opts.MaxNodes,
+		})
+	}
+	return out
+}
+
+// VerifCalcPercentUsage exposes calcPercentUsage unchanged.
+func VerifCalcPercentUsage(cpuRequest, memRequest, cpuCapacity, memCapacity resource.Quantity, numberOfUntaintedNodes int64) (float64, float64, error) {
+	return calcPercentUsage(cpuRequest, memRequest, cpuCapacity, memCapacity, numberOfUntaintedNodes)
+}
+
+// VerifCalcScaleUpDelta exposes calcScaleUpDelta unchanged. cachedCPU / cachedMem fill the
+// group's cached node capacity that the scale-from-zero branch reads.
+func VerifCalcScaleUpDelta(nodes []*v1.Node, cpuPercent, memPercent float64, cpuRequest, memRequest resource.Quantity, opts NodeGroupOptions, cachedCPU, cachedMem resource.Quantity) (int, error) {
+	return calcScaleUpDelta(nodes, cpuPercent, memPercent, cpuRequest, memRequest, &NodeGroupState{
+		Opts:        opts,
+		cpuCapacity: cachedCPU,
+		memCapacity: cachedMem,
+	})
+}
